@@ -145,6 +145,14 @@ theorem wrapper_preserves_outputs {α} (it : List α) (boot : Nat → Bool) (o :
     (o = .ok outs → wrapOutcome boot o = .ok outs) ∧ (o = .closed outs → wrapOutcome boot o = .closed outs) :=
   ⟨wrapper_input' it, wrapper_preserves_outputs' boot o outs⟩
 
+/-- the wrapper's shortcut returns nothing exactly for the empty stream — whatever the items are (falsy, `None`, …) -/
+theorem wrapper_guard {α} (it : List α) : wrapperSkips it = true ↔ it = [] := wrapper_guard' it
+
+/-- testing the first item against `None` instead drops a whole stream that starts with a `None` item -/
+theorem wrapper_guard_counterexample :
+    wrapperSkips [none, some 1, some 2] = false ∧ wrapperSkipsStale [none, some 1, some 2] = true :=
+  wrapper_guard_counterexample'
+
 /-- an error `e` of the inner call is re-raised unchanged unless it is one the wrapper turns into `CobaExit` -/
 theorem wrapper_error_translation (boot : Nat → Bool) (e : Nat) (outs : List Nat) :
     wrapOutcome boot (.raised e outs) = (if boot e then .exit e outs else .raised e outs) :=
